@@ -38,7 +38,8 @@ inductive Body where
   | decline
   deriving DecidableEq, Repr
 
-/-- a `HookFunction` object -/
+/-- a `HookFunction` object: `add_function` creates one per call (also when the same function object is registered
+    already, on whatever class); `id` is its identity, by which `remove_function` finds it -/
 structure HF where
   id : Nat
   wrapper : Bool
